@@ -23,7 +23,7 @@ from common import *
 from server import Server, Client, Closed, ProtocolError, show_reply
 
 PID = "C17"
-PENDING_FINDINGS = os.path.join(VERIF, "pending_repo_patches", "C17_findings.json")
+PENDING_FINDINGS = os.environ.get("C17_PENDING_FINDINGS", os.path.join(VERIF, "pending_repo_patches", "C17_findings.json"))
 
 # The configured password: mixed case, a two-byte UTF-8 character, a digit, punctuation.
 PASSWORD = "s3cr\u00e9t-Pw".encode("utf-8")       # é precomposed: c3 a9
@@ -246,7 +246,7 @@ class C17:
         # probe=False: nobody connects before us, so the first bystander below is the FIRST connection the server ever accepts
         self.srv = Server(self.tag, probe=False, **M["kw"])
         if "lines" in M:
-            a = self.ask("configlines %s %s %s" % (hl(M["cli"]), hl(M["lines"]), hl(M["given"])))
+            a = self.ask("configlines %s %s" % (hl(M["cli"]), hl(M["lines"])))
         else:
             a = self.ask("config %s %s" % (hl(M["cli"]), hl(M["file"])))
         self.model_password, self.spec_password = (x.split("=")[1] for x in a.split(" "))
@@ -863,6 +863,8 @@ def known_match(c17, problem, rec, findings):
     data / replica registration that followed) belongs to a request whose normalised name is special-cased
     before the gate (model class `pregate`) and is SYNC or PSYNC"""
     for f in findings:
+        if problem.get("finding_shape") and f.get("match") == problem["finding_shape"]:
+            return f
         if f.get("match") != "pregate-name":
             continue
         reqs = [Req.from_json(o) for o in rec["case"].get("pipe", [])] + [Req.from_json(o) for o in rec["case"].get("pre", [])]
@@ -956,7 +958,7 @@ def main(tier, seed):
         rep.extra["source_shapes_not_understood"] = c17.unreadable
         rep.extra["requests"] = len(reqs)
         rep.extra["situations"] = len(sts)
-        budget = Budget()
+        budget = Budget(open_shapes=[f.get("match") for f in findings])
         # -- 1. only the exact password authenticates: decided first, with nothing hostile on the connection
         recs += wrong_password_family(c17, budget)
         # -- 1a. connection-state commands executed indirectly (EXEC's substitute connection id, scripts): nobody else is promoted
@@ -991,6 +993,9 @@ def main(tier, seed):
         # -- 5. the same server GIVEN its password in every other supported way
         if not budget.spent():
             recs += config_family(c17, r, tier, sts, reqs, budget)
+        # -- 5b. a corpus of configuration files: separators, byte-order mark, quotes, escapes, ill-formed lines
+        if not budget.spent():
+            recs += config_corpus_family(c17, budget)
         # -- 6. … and GIVEN other password values (special characters, blanks, quotes, long, empty …) through the file and the command line
         if not budget.spent():
             recs += config_value_family(c17, r, tier, budget)
@@ -1008,11 +1013,12 @@ class Budget:
     """the run stops early once enough cases have failed the oracle (each of them is a complete replay; going on
     would only exercise a server that is known to be open)"""
 
-    def __init__(self, limit=25):
-        self.n, self.limit = 0, limit
+    def __init__(self, limit=25, open_shapes=()):
+        self.n, self.limit, self.open_shapes = 0, limit, set(open_shapes)
 
     def note(self, rec):
-        if any(p["kind"] == "oracle" for p in rec["problems"]):
+        # failures that have the shape of an open known finding do not use up the budget: the run goes on looking for others
+        if any(p["kind"] == "oracle" and p.get("finding_shape") not in self.open_shapes for p in rec["problems"]):
             self.n += 1
 
     def spent(self):
@@ -1144,13 +1150,8 @@ def expressible(source, value):
     if source == "cli":
         # cli.rs: `cli_args.password = Some(args[i + 1].clone())` — the next argv element verbatim, whatever it looks like; argv cannot carry NUL
         return "argv cannot carry a NUL byte" if "\0" in value else None
-    # parser.rs parse_config_file: `line.trim()`, `splitn(2, ' ')`, `value = parts[1].trim()`
-    if value == "":
-        return "`requirepass ` with nothing behind it trims to one word: ConfigParseError::Format, the server does not start"
-    if "\n" in value or "\r" in value:
-        return "the file is read line by line (BufRead::lines)"
-    if value != value.strip(RUST_WS):
-        return "the value is `parts[1].trim()`: white space (char::is_whitespace) at either end is stripped, so it cannot be part of the password"
+    # the file: redis.conf syntax — a plain word as it is, anything else between double quotes with escapes (conf_repr): every value that
+    # is valid UTF-8 can be written (the Spec's reading is the Lean `Grammar.spec`; the driver confirms it for each line written)
     return None
 
 
@@ -1158,9 +1159,33 @@ def custom_mode(source, vtag, value):
     pw = value.encode("utf-8")
     if source == "cli":
         return dict(label="%s/%s" % (source, vtag), source=source, vtag=vtag, value=value, kw=dict(password=value), cli=[pw], file=[], password=pw)
-    line = "requirepass " + value
+    line = "requirepass " + conf_repr(value)
     return dict(label="%s/%s" % (source, vtag), source=source, vtag=vtag, value=value, kw=dict(config_lines=["# c17 value family", line]),
-                cli=[], lines=[b"# c17 value family", line.encode("utf-8")], given=[pw], password=pw)
+                cli=[], lines=[b"# c17 value family", line.encode("utf-8")], password=pw, rest=conf_repr(value).encode("utf-8"))
+
+
+def conf_repr(value):
+    """the value as a redis.conf argument: a plain word (no white space, quote or backslash; not empty) as it is, anything else between
+    double quotes with `\\\\`, `\\"`, `\\n`, `\\r`, `\\t` and `\\xHH` for the other control characters"""
+    if value and not any(ch in value for ch in "\"'\\") and not any(ch in RUST_WS or ord(ch) < 0x20 for ch in value):
+        return value
+    out = []
+    for ch in value:
+        if ch == "\\":
+            out.append("\\\\")
+        elif ch == '"':
+            out.append('\\"')
+        elif ch == "\n":
+            out.append("\\n")
+        elif ch == "\r":
+            out.append("\\r")
+        elif ch == "\t":
+            out.append("\\t")
+        elif ord(ch) < 0x20 or ord(ch) == 0x7f:
+            out.append("\\x%02x" % ord(ch))
+        else:
+            out.append(ch)
+    return '"' + "".join(out) + '"'
 
 
 def custom_json(c):
@@ -1195,6 +1220,129 @@ def value_variants(v):
             seen.add(w)
             res.append((t, w))
     return res
+
+
+# ------------------------------------------------------------------------------------------ a corpus of configuration files
+CORPUS = [
+    # (tag, lines of the file) — the hunter's lines (hunt/C17/d1, d2) and their neighbours
+    ("tab-separator+quoted-password-with-blank", [b'requirepass\t"open sesame"']),
+    ("tab-separator+plain-word", [b"requirepass\tsecret"]),
+    ("tab-separator+plain-word+remark", [b"requirepass\tsecret # remark"]),
+    ("tab-separator+two-words", [b"requirepass\tone two"]),
+    ("blanks-and-tabs+quoted", [b'requirepass \t  "open sesame"  ']),
+    ("uppercase-directive+tab", [b"REQUIREPASS\tsecret"]),
+    ("leading-white-space+tab", [b"  \trequirepass\tsecret"]),
+    ("vertical-tab-separator", [b"requirepass\x0bsecret"]),
+    ("nbsp-separator", ["requirepass\u00a0secret extra".encode("utf-8")]),
+    ("bom-first-line", [b"\xef\xbb\xbfrequirepass open-sesame"]),
+    ("bom-first-line+tab+quoted", [b'\xef\xbb\xbfrequirepass\t"open sesame"']),
+    ("bom-then-comment-then-directive", [b"\xef\xbb\xbf# saved as UTF-8 with BOM", b"requirepass open-sesame"]),
+    ("after-other-directives+tab", [b"timeout 0", b'requirepass\t"open sesame"', b"tcp-keepalive 300"]),
+    ("double-quoted", [b'requirepass "s3cret"']),
+    ("single-quoted", [b"requirepass 's3cret'"]),
+    ("double-quoted-with-blank", [b'requirepass "two words"']),
+    ("single-quoted-with-blank", [b"requirepass 'two  words'"]),
+    ("escapes-in-double-quotes", [b'requirepass "a\\x41\\n\\"b\\\\\\t"']),
+    ("escape-in-single-quotes", [b"requirepass 'it\\'s'"]),
+    ("quote-in-the-middle-of-a-word", [b'requirepass foo"bar baz"']),
+    ("hash-inside-quotes", [b'requirepass "pw # not a remark"']),
+    ("empty-quoted", [b'requirepass ""']),
+    ("unterminated-double-quote", [b'requirepass "unterminated']),
+    ("unterminated-single-quote", [b"requirepass 'unterminated"]),
+    ("text-after-closing-quote", [b'requirepass "a"b']),
+    ("trailing-remark", [b"requirepass secret # remark"]),
+    ("two-values", [b"requirepass one two"]),
+    ("no-value", [b"requirepass"]),
+    ("no-value-trailing-blank", [b"requirepass "]),
+    ("escape-that-is-not-utf8", [b'requirepass "\\xff\\xfe"']),
+    ("second-requirepass-ill-formed", [b"requirepass first", b'requirepass "unterminated']),
+    ("plain-control", [b"requirepass open-sesame"]),
+]
+
+
+def verbatim_rest(lines):
+    """what the pinned grammar takes for the password of the last requirepass-looking line: the rest of the line after the first blank"""
+    for l in reversed(lines):
+        t = l.decode("utf-8").lstrip("\ufeff").strip(RUST_WS)
+        if t.lower().startswith("requirepass"):
+            return t[len("requirepass"):].strip(RUST_WS).encode("utf-8")
+    return None
+
+
+def config_corpus_case(c17, tag, lines):
+    """One configuration file: what does the prescribed grammar say (driver: spec), what does the model of the tree's grammar say (code), what
+    does the server do (does not start | runs OPEN | runs with which password)?  Oracle: a file with a requirepass line never yields an open
+    server; when the prescribed grammar gives a password, exactly that password authenticates — or the server does not start (fail-closed)."""
+    rep = c17.rep
+    a = c17.ask("configlines . %s" % "|".join(hx(l) for l in lines))
+    code, spec = (x.split("=")[1] for x in a.split(" "))
+    rec = {"case": {"tag": "config-corpus/" + tag, "corpus": tag, "corpus_lines": [hx(l) for l in lines], "config_lines": [l.decode("utf-8") for l in lines],
+                    "mode": "corpus", "pre": []}, "impl": [], "code": [{"outcome": code}], "spec": [{"outcome": spec}], "problems": []}
+    cands = []
+    for c in ([unhx(spec)] if spec not in ("error", "none") else []) + ([unhx(code)] if code not in ("error", "none", "unknown") else []) + \
+            [x for x in [verbatim_rest(lines)] if x is not None]:
+        if c not in cands:
+            cands.append(c)
+    srv = None
+    try:
+        try:
+            srv = Server("c17corpus", probe=False, config_lines=[l.decode("utf-8") for l in lines])
+        except InternalError as e:
+            if "exited at start-up" not in str(e):
+                raise
+            impl = "error"
+        if srv is not None:
+            u = srv.client()
+            r = u.cmd(*PROBE_ARGS)
+            u.close()
+            if not (r[0] == "e" and r[1].startswith(b"NOAUTH")):
+                impl = "none"
+            else:
+                impl = "closed:?"
+                for c in cands:
+                    u = srv.client()
+                    ok = u.cmd("AUTH", c) == ("s", b"OK") and u.cmd(*PROBE_ARGS)[0] != "e"
+                    u.close()
+                    if ok:
+                        impl = hx(c)
+                        break
+    finally:
+        if srv is not None:
+            srv.stop()
+    rec["impl"] = [{"outcome": impl, "argv": "ferrous <file> --port P --dir D"}]
+    rep.evaluations += 1
+    rep.count("config-corpus.spec-%s.impl-%s" % ("password" if spec not in ("error", "none") else spec, "password" if impl not in ("error", "none", "closed:?") else impl))
+    rep.nontrivial(("config-corpus", tag, spec not in ("error", "none"), impl if impl in ("error", "none") else ("spec-pw" if impl == spec else "other-pw")))
+    text = " | ".join(repr(l.decode("utf-8")) for l in lines)
+    raw = b"\n".join(lines)
+    cut_shape = b"\xef\xbb\xbf" in raw or any(re.match(rb"^\s*(\xef\xbb\xbf)?\s*requirepass[\t\x0b\x0c\xc2]", l, re.I) for l in lines)
+    if impl == "none" and spec != "none":
+        rec["problems"].append({"kind": "oracle", "finding_shape": "config-directive-cut" if cut_shape else None,
+                                "why": "a server started with a configuration file that has a requirepass line runs OPEN (unauthenticated GET c17:n answered): %s" % text})
+    elif spec not in ("error", "none") and impl not in ("error", spec):
+        vb = verbatim_rest(lines)
+        quotes = vb is not None and impl == hx(vb) and any(ch in vb for ch in b"\"'\\")
+        rec["problems"].append({"kind": "oracle", "finding_shape": "config-quotes-literal" if quotes else None,
+                                "why": "the password of the configuration file (%r by redis.conf syntax) is refused; %s: %s" % (
+                                    unhx(spec).decode("latin-1"), ("AUTH %r authenticates instead" % unhx(impl).decode("latin-1")) if impl != "closed:?" else
+                                    "the server runs with some other password", text)})
+    elif spec not in ("error", "none") and impl == "error":
+        rep.count("config-corpus.fail-closed-although-well-formed")
+    elif spec == "error" and impl not in ("error", "none"):
+        rep.count("config-corpus.runs-closed-although-ill-formed")
+    if code != "unknown" and code != impl and not (code not in ("error", "none") and impl == "closed:?"):
+        rec["problems"].append({"kind": "model", "why": "configuration file %s: the model of the tree's grammar says %s, the server: %s" % (text, code, impl)})
+    return rec
+
+
+def config_corpus_family(c17, budget):
+    recs = []
+    for tag, lines in CORPUS:
+        rec = config_corpus_case(c17, tag, lines)
+        budget.note(rec)
+        if rec["problems"]:
+            recs.append(rec)
+    return recs
 
 
 def config_value_family(c17, r, tier, budget):
@@ -1234,7 +1382,8 @@ def config_value_family(c17, r, tier, budget):
                                got, value[:60], "configuration file" if source == "file" else "command line")}]}
                 if kind == "exact-refused":
                     # which password IS in force then?  (no control connection: plain connections, AUTH variant then the benign probe)
-                    for t, w in variants:
+                    rest = cm.get("rest")
+                    for t, w in ([("the text of the line as written (quotes and escapes included)", rest)] if rest and rest != pw else []) + variants:
                         try:
                             u = c17.srv.client()
                             a, g = u.cmd("AUTH", w), u.cmd(*PROBE_ARGS)
@@ -1242,13 +1391,17 @@ def config_value_family(c17, r, tier, budget):
                         except (OSError, Closed, ProtocolError):
                             continue
                         if a == ("s", b"OK") or g[0] != "e":
-                            rec["case"]["tag"] = "config-value/%s/%s/%s-authenticates" % (source, vtag, t)
-                            rec["problems"].insert(0, {"kind": "oracle", "why": "a wrong password authenticated: AUTH %r (%s of the password %r given through the %s): AUTH -> %s, GET c17:n -> %s" % (
+                            rec["case"]["tag"] = "config-value/%s/%s/%s-authenticates" % (source, vtag, t.split(" ")[0])
+                            if rest and w == rest and rest != pw and any(ch in rest for ch in b"\"'\\"):
+                                # the quotes / escapes of the redis.conf argument stayed in the password
+                                for pp in rec["problems"]:
+                                    pp["finding_shape"] = "config-quotes-literal"
+                            rec["problems"].insert(0, {"kind": "oracle", "finding_shape": rec["problems"][0].get("finding_shape"), "why": "a wrong password authenticated: AUTH %r (%s of the password %r given through the %s): AUTH -> %s, GET c17:n -> %s" % (
                                 w[:60].decode("latin-1"), t, value[:60], "configuration file" if source == "file" else "command line", show_reply(a), show_reply(g)[:40])})
                             rec["case"]["pipe"] = [Req(b"AUTH", [w]).to_json(), PROBE.to_json()]
                             break
                 c17.rep.evaluations += 1
-                budget.n += 1
+                budget.note(rec)
                 recs.append(rec)
                 if budget.spent():
                     break
@@ -1478,7 +1631,8 @@ def verdict(rep, ok, log, errs, c17, new, known, model, findings):
         new.append(({"case": {"tag": "static: Gen.preGate"}, "impl": [], "code": [], "spec": []},
                     {"kind": "oracle", "why": "names handled before the authentication gate outside the known finding: %s" % [n.decode() for n in c17.pre_gate]}))
     for f in findings:
-        if f["id"] not in known:
+        if f["id"] not in known and not rep.extra.get("stopped_early"):
+            # (a run that stopped early after enough failures has not been everywhere: nothing is said about findings it did not reach)
             if f.get("match") == "pregate-name" and not c17.pre_gate:
                 why = "known finding %s no longer reproduces and Gen.preGate is empty (guarded: %s): the fix is in the tree — move the finding to `fixed`" % (
                     f["id"], [n.decode() for n in c17.guarded])
@@ -1521,6 +1675,19 @@ def replay(path):
     build_driver("auth")
     build_server()
     case = rp["case"]
+    if case.get("corpus_lines"):
+        c17 = C17(rep, obj.get("seed", 0), tag="c17replay")
+        try:
+            rec = config_corpus_case(c17, case["corpus"], [unhx(x) for x in case["corpus_lines"]])
+        finally:
+            c17.close()
+        print("case  :", case["tag"]); print("  file:", case.get("config_lines"))
+        print("impl  :", json.dumps(rec["impl"])); print("code  :", json.dumps(rec["code"])); print("spec  :", json.dumps(rec["spec"]))
+        for p in rec["problems"]:
+            print("  %s: %s" % (p["kind"], p["why"]))
+        bad = [p for p in rec["problems"] if p["kind"] == "oracle"]
+        print("REPLAY %s" % ("still fails" if bad else "passes"))
+        return 1 if bad else 0
     try:
         cj = case.get("custom")
         if cj:
